@@ -44,6 +44,8 @@ def universe():
         ("{'a':nan}", {'a': nan2}), ('((1,),2)', ((1,), 2)), ('[(1,),{}]', [(1,), {}]), ("{'a':{'b':1}}", {'a': {'b': 1}}),
         ("{'a':1,'b':2}", {'a': 1, 'b': 2}), ("{'b':1,'a':2}", {'b': 1, 'a': 2}), ("{'b':2,'a':1}", {'b': 2, 'a': 1}), ("{'b':3,'a':0}", {'b': 3, 'a': 0}),
         ("({'b':1,'a':2},)", ({'b': 1, 'a': 2},)), ("({'a':1,'b':2},)", ({'a': 1, 'b': 2},)), ("[{'b':2,'a':1}]", [{'b': 2, 'a': 1}]), ("[{'a':2,'b':1}]", [{'a': 2, 'b': 1}]),
+        ('[True]', [True]), ('[False]', [False]), ('[0]', [0]), ("[False,'x']", [False, 'x']), ("[True,'x']", [True, 'x']), ("[0,'x']", [0, 'x']), ("[1,'x']", [1, 'x']),
+        ('(True,)', (True,)), ('(False,)', (False,)), ('(0,)', (0,)), ('[[True]]', [[True]]), ('[[1]]', [[1]]), ("[dt1,'x']", [_DT1, 'x']), ("{'a':True}", {'a': True}),
         ('3', 3), ('2', 2), ("'ab'", 'ab'), ('(None,)', (None,)), ('[[]]', [[]]), ('timedelta', datetime.timedelta(1)),
     ]
     return U
